@@ -374,6 +374,8 @@ public:
 			ar.swap(tmp);
 		}
 		catch(std::bad_alloc const &) {
+			// the new value can not be kept: make sure the superseded one is not served any more
+			remove(key);
 			return;
 		}
 
